@@ -579,6 +579,10 @@ def gen_valid(rng, n_actions=None, threads=False, builder=False):
 RENDER_HOOKS = []     # extensions (e.g. pipelines): functions (renderer, doc) -> None that add to the document
 
 
+GHOST = 7000          # ids in [GHOST, GHOST+1000) denote "entity id-GHOST of a schema that is not imported"
+GHOST_FILES = ["nonexistent/not_a_schema", "test/small_example_schema", "test/basic_import"]
+
+
 class Renderer:
     """Scenario -> JSON document.  `spell(kind, id)` decides id vs alias spelling per occurrence."""
 
@@ -619,6 +623,10 @@ class Renderer:
 
     def ref(self, r, force=None):
         kind, i = r
+        if GHOST <= i < GHOST + 1000:
+            # a reference qualified by a schema that is not imported; its local part is spelled like the native
+            # reference it was derived from (so it would resolve if the qualifier were ignored)
+            return "schema:{%s}.%s" % (GHOST_FILES[i % len(GHOST_FILES)], self.ref((kind, i - GHOST), force))
         mode = force or self.spelling
         if mode == "mixed":
             mode = "alias" if self.rng.random() < 0.5 else "id"
